@@ -46,6 +46,42 @@ func BuildHTTPPath(servicePath, methodPath string) string {
 	return servicePath + "/" + methodPath
 }
 
+// ResolveMethodPath returns the full HTTP path of an RPC as documented in
+// docs/http-generation.md ("Path Resolution"):
+//
+//  1. base path + custom path
+//  2. custom path alone
+//  3. base path + snake_case method name
+//  4. /<go package name>/<snake_case method name>
+//
+// Every generator (Go server, Go client, TS client, TS server, OpenAPI) resolves paths through
+// this function so that they all publish the same route.
+func ResolveMethodPath(basePath, customPath, goPackageName, methodGoName string) string {
+	if customPath != "" {
+		return BuildHTTPPath(basePath, customPath)
+	}
+	if basePath != "" {
+		return strings.TrimSuffix(EnsureLeadingSlash(basePath), "/") + "/" + CamelToSnake(methodGoName)
+	}
+	return "/" + goPackageName + "/" + CamelToSnake(methodGoName)
+}
+
+// CamelToSnake converts "CreateUser" to "create_user".
+func CamelToSnake(s string) string {
+	var result []byte
+	for i, r := range s {
+		if r >= 'A' && r <= 'Z' {
+			if i > 0 {
+				result = append(result, '_')
+			}
+			result = append(result, byte(r+'a'-'A'))
+		} else {
+			result = append(result, byte(r))
+		}
+	}
+	return string(result)
+}
+
 // EnsureLeadingSlash ensures a path starts with "/".
 func EnsureLeadingSlash(path string) string {
 	if path == "" {
